@@ -18,14 +18,21 @@ template <class In, class Out> Out copy(In first, In last, Out out) {
   while (first != last) { *out = *first; ++out; ++first; }
   return out;
 }
-template <class It, class T> void fill(It first, It last, const T& v) {
-  while (first != last) { *first = v; ++first; }
+template <class T, class U> void fill(T* first, T* last, U v) {
+  while (first != last) { *first = (T)v; ++first; }
 }
 template <class T> T min(T a, T b) { return b < a ? b : a; }
 template <class T> T max(T a, T b) { return a < b ? b : a; }
 template <class T> void swap(T& a, T& b) { T t = a; a = b; b = t; }
 template <class It> void reverse(It first, It last) {
   while (first != last && first != --last) { swap(*first, *last); ++first; }
+}
+// std::sort on raw pointers: insertion sort (any correct sort satisfies the standard's contract: a sorted permutation)
+template <class T> void sort(T* first, T* last) {
+  for (T* i = first; i != last; ++i) {
+    T* j = i;
+    while (j != first && *j < *(j - 1)) { T t = *j; *j = *(j - 1); *(j - 1) = t; --j; }
+  }
 }
 }  // namespace std
 #endif
